@@ -92,7 +92,7 @@ SameExpr(a, b) ==
        [] a.k = "lit"  -> SameVal(a.v, b.v)
        [] a.k = "attr" -> a.a = b.a /\ SameExpr(a.e, b.e)
        [] a.k = "idx"  -> SameVal(a.key, b.key) /\ SameExpr(a.e, b.e)
-       [] a.k = "mcall" -> a.m = b.m /\ a.arg.t = b.arg.t /\ (a.arg.t = "noarg" \/ SameVal(a.arg, b.arg)) /\ SameExpr(a.e, b.e)
+       [] a.k = "mcall" -> a.m = b.m /\ a.kw = b.kw /\ a.arg.t = b.arg.t /\ (a.arg.t = "noarg" \/ SameVal(a.arg, b.arg)) /\ SameExpr(a.e, b.e)
        [] OTHER -> FALSE
 SameTree(g, m) ==
   /\ g.k = m.k
